@@ -141,6 +141,8 @@ type adapter struct {
 	state      dataState
 	compressed bool
 	length     uint32
+	// bareEnd is set while the processor is told of an END_STREAM that carries no message.
+	bareEnd bool
 	// zlibWrapped indicates that the last deflate message came in the zlib container.
 	zlibWrapped bool
 }
@@ -216,8 +218,12 @@ func (a *adapter) Data(data []byte, streamEnded bool) error {
 		switch a.state {
 		case readingMetadata:
 			if streamEnded && a.buffer.Len() == 0 {
-				// gRPC may send empty DATA frames to end a stream.
-				if err := a.processor.Message(nil, true); err != nil {
+				// gRPC may send empty DATA frames to end a stream. The call is marked for the emitter:
+				// a nil slice alone cannot tell it from an empty last message that a processor copied.
+				a.bareEnd = true
+				err := a.processor.Message(nil, true)
+				a.bareEnd = false
+				if err != nil {
 					return err
 				}
 			}
@@ -319,7 +325,7 @@ func (e *emitter) Header(
 }
 
 func (e *emitter) Message(data []byte, streamEnded bool) error {
-	if data == nil && streamEnded {
+	if e.adapter.bareEnd && len(data) == 0 && streamEnded {
 		// The adapter reports an END_STREAM that carries no message as Message(nil, true). That is
 		// not a message: only the end of the stream is forwarded.
 		return e.sink.Data(nil, true)
